@@ -154,6 +154,7 @@ fn zip_entry<W: Write + Seek>(
 /// Zip up each language and braille dir
 /// Note: regional variations (including zh-cn and zh-tw) are zipped together into one zip file
 fn main() {
+    println!("cargo::rustc-check-cfg=cfg(mathcat_verif)");     // guard for the hooks in src/verif_hooks.rs (off by default)
     // This doesn't work because the build claims OUT_DIR is not defined(?)
     // let archive = PathBuf::from(concat!(env!("OUT_DIR"),"/rules.zip"));
 
